@@ -139,9 +139,11 @@ def r07_2(chk):
     chk.decide(bool(rev) and norm(rev[0].value) == "topdown[::-1]", "R07.2", key(m, "ParameterController.__init__", "sweep order"), m.loc(rev[0]) if rev else m.loc(init), "self.defns = topdown[::-1] (arguments before clients)", "self.defns is no longer the reversed top-down order: a client could be updated before its argument")
     u = m.func("ParameterController.update_intermediate_values")
     gu = build(u)
-    rec = gu.nodes_containing(lambda x: isinstance(x, ast.Call) and norm(x.func) == "self._changed.update")
+    # recording = accumulating into the dirty set (update / |= / add); replacing it loses what was pending
+    rec = [n for n in gu.nodes if n.kind == "stmt" and ((isinstance(n.ast, ast.Expr) and isinstance(n.ast.value, ast.Call) and norm(n.ast.value.func) in ("self._changed.update", "self._changed.add")) or (isinstance(n.ast, ast.AugAssign) and norm(n.ast.target) == "self._changed" and isinstance(n.ast.op, ast.BitOr)))]
+    replaced = [n for n in gu.nodes if n.kind == "stmt" and isinstance(n.ast, ast.Assign) and any(norm(t) == "self._changed" for t in n.ast.targets)]
     sw = gu.nodes_containing(lambda x: isinstance(x, ast.Call) and norm(x.func) == "self._updateIntermediateValues")
-    chk.decide(bool(rec and sw) and gu.dominated_by(sw[0], rec)[0], "R07.2", key(m, "ParameterController.update_intermediate_values", "record then sweep"), m.loc(u), "changed definitions recorded before the sweep", "the sweep runs before (or without) recording the changed definitions")
+    chk.decide(bool(rec and sw) and all(gu.dominated_by(s_, rec)[0] for s_ in sw) and not replaced, "R07.2", key(m, "ParameterController.update_intermediate_values", "record then sweep"), m.loc(replaced[0].ast if replaced else u), "changed definitions are added to the dirty set before every sweep", "the dirty set is replaced (`self._changed = ...`) or the sweep runs without the changed definitions being added: definitions still pending from a postponed/failed batch are never recalculated")
     chk.floor("R07.2", 5, "five obligations")
 
 
@@ -184,6 +186,10 @@ def r07_3(chk):
                             restored.add(x.attr)
             missing = pre - restored
             chk.decide(not missing, "R07.3", key(mod, q, "restore in finally"), mod.loc(fn), f"self.{', self.'.join(sorted(pre))} restored in finally", f"self.{', self.'.join(sorted(missing))} set before the yield is not restored in a finally: an exception inside the with-block leaves it set (updates stay suspended and later changes are not reflected)")
+            # work deferred to the end of the block (calls on self after the yield) must run on the exceptional path too
+            if prot is not None:
+                trailing = [st for st in fn.body if st.lineno > (prot.end_lineno or prot.lineno) and any(isinstance(c, ast.Call) and norm(c.func).startswith("self.") for c in ast.walk(st))]
+                chk.decide(not trailing, "R07.3", key(mod, q, "deferred work in finally"), mod.loc(trailing[0] if trailing else prot), "everything deferred to the end of the block runs in the finally", f"`{norm(trailing[0]) if trailing else ''}` runs only when the with-block completes normally: after a failure part-way the changes already made are never propagated (stale values until the next assignment)")
     chk.floor("R07.3", 1, "updates_postponed")
     probe = ast.parse("@contextmanager\ndef f(self):\n    self.a = 1\n    yield\n    self.a = 0\n").body[0]
     if not _is_contextmanager(probe):
@@ -249,7 +255,45 @@ def r07_4(chk):
     chk.floor("R07.4", 4, "3 tracked attributes + re-raise")
 
 
+def r07_5(chk):
+    chk.rule("R07.5", "Calculator.change takes the 1-deep undo shortcut only when ALL changes of the last step are reversed in this one (for/else with break on a missing change, all(...), or a subset test); with `any`, a partial revert silently reverts parameters the caller kept")
+    m = chk.repo.module("recalculation/calculation.py")
+    fn = m.func("Calculator.change")
+    reset = [st for st in fn.body if isinstance(st, ast.Assign) and norm(st.targets[0]) == "self.last_undo" and norm(st.value) == "[]"]
+    if not reset:
+        raise AnalysisError("Calculator.change: `self.last_undo = []` not found")
+    before = fn.body[: fn.body.index(reset[0])]
+    flips = []
+    for st in before:
+        for x in ast.walk(st):
+            if isinstance(x, ast.Assign) and norm(x.targets[0]) == "self._switch":
+                flips.append((st, x))
+    k = key(m, "Calculator.change", "undo shortcut guard")
+    if not flips:
+        chk.unresolved("R07.5", k, m.loc(fn), "no undo shortcut before the reset of last_undo")
+        return
+    top, flip = flips[0]
+    verdict, why = None, ""
+    for node in ast.walk(top):
+        if isinstance(node, ast.For) and any(flip is x for s_ in node.orelse for x in ast.walk(s_)):
+            brk = [i for i in ast.walk(ast.Module(body=node.body, type_ignores=[])) if isinstance(i, ast.If) and any(isinstance(b, ast.Break) for b in i.body) and "not in changes" in norm(i.test)]
+            if norm(node.iter) == "self.last_undo" and brk:
+                verdict, why = True, "for ... in self.last_undo: if <change> not in changes: break / else: undo"
+        if isinstance(node, ast.If) and any(flip is x for s_ in node.body for x in ast.walk(s_)):
+            t = norm(node.test)
+            if "any(" in t and "last_undo" in t:
+                verdict, why = False, f"guard `{t}`"
+            elif ("all(" in t and "last_undo" in t) or ("<=" in t and "last_undo" in t) or "issubset" in t:
+                verdict, why = True, f"guard `{t}`"
+    if verdict is None:
+        chk.unresolved("R07.5", k, m.loc(top), "undo shortcut guarded by an unrecognised idiom")
+    else:
+        chk.decide(verdict, "R07.5", k, m.loc(top), why, why + " fires when only SOME of the last changes are reversed: the others are reverted as well and the value returned is for the wrong point")
+    chk.floor("R07.5", 1, "the undo shortcut")
+
+
 def run(chk):
+    r07_5(chk)
     r07_1(chk)
     r07_2(chk)
     r07_3(chk)
